@@ -3,7 +3,7 @@
    spec (Spec.spec_obs). *)
 From Coq Require Import ZArith QArith Qabs List Bool Arith.
 Import ListNotations.
-From KD Require Import C11.Model C11.Spec.
+From KD Require Import C11.Model C11.Spec C11.Heap.
 Open Scope Z_scope.
 
 (* one generator created by the wrapper (np.random.default_rng(seed + idx), or GlobalRng() when there is no seed: oc_seed
@@ -16,7 +16,12 @@ Record obs := {
   o_calls : list ocall;
   o_items : list obs_value;           (* the returned tuple (a single item is a one-element list) *)
   o_wit : option (nat * Q);           (* see Spec.spec_obs *)
-  o_ctx_ids : list Z                  (* sample id decoded from every entry of the returned context *)
+  o_ctx_ids : list Z;                 (* sample id decoded from every entry of the returned context *)
+  o_alias : bool;                     (* the wrapped dataset's getitem_x hands out its stored tensors (or views of them) *)
+  o_store_changed : bool;             (* a stored tensor / label of the wrapped dataset differs from what it was before the
+                                         requests (earlier requests of the history, the request itself, repetitions) *)
+  o_x_shares : option bool            (* the returned x shares its storage with a stored sample (None: no x returned, or a
+                                         transform above the mix wrapper built a new tensor) *)
 }.
 
 Definition optz_eqb (a b : option Z) : bool :=
@@ -86,26 +91,48 @@ Definition err_allowed (c : cfg) (ds : dataset) (toks : list token) (code : nat)
   | _ => false
   end.
 
+(* the heap reading (Heap.v) of the observed getitem_xclass calls of the request, over the dataset literal stored at
+   addresses 0..n-1: the x item comes from the last call (a label requested before the image is first loaded by a call
+   of its own, then overwritten by the fused call); it lives in the dataset's storage iff its address is a stored one *)
+Definition store_of (lit : list sample_lit) (ncls : nat) (alias : bool) : store :=
+  {| st_len := length lit; st_addr := fun k => k; st_alias := alias;
+     st_cls := fun k => snd (nth k (map (fun s => (lit_tensor s, snd s)) lit) (empty_t, LInt 0)); st_ncls := ncls |}.
+Definition predicted_shares (lit : list sample_lit) (ncls : nat) (alias : bool) (c : cfg) (idx : nat) (cs : list ocall)
+  : option bool :=
+  let h0 := map lit_tensor lit in
+  let '(_, rs) := run_history (store_of lit ncls alias) c (map (fun oc => (idx, oc_draws oc)) cs) h0 in
+  match last rs (Err EDraw) with
+  | Ok a => Some (a <? length h0)%nat
+  | Err _ => None
+  end.
+Definition shares_match (pred obs : option bool) : bool :=
+  match obs, pred with
+  | None, _ => true
+  | Some b, Some b' => Bool.eqb b b'
+  | Some _, None => false
+  end.
+
 Definition case_t : Type :=
   cfg * (list sample_lit * nat) * list token * nat * nat * obs.
 
 (* 0 = implementation, model and spec agree; 1 = the model differs from the implementation;
-   2 = the spec is false on the implementation's output *)
+   2 = the spec is false on the implementation's output (incl.: the wrapped dataset was modified) *)
 Definition check (t : case_t) : nat :=
   let '(c, (lit, ncls), toks, idx, outcome, o) := t in
   let ds := lit_dataset lit ncls in
   let m := mw_getitem ds c (oracle_of (o_calls o)) toks idx in
   match outcome with
   | O =>
-      if negb (spec_obs ds c toks idx (o_wit o) (o_items o) (o_ctx_ids o)) then 2%nat else
+      if negb (spec_obs ds c toks idx (o_wit o) (o_items o) (o_ctx_ids o)) || o_store_changed o then 2%nat else
       match m with
       | Ok (vals, calls) =>
           if forall2b value_match vals (o_items o) && forall2b call_match calls (o_calls o)
+             && shares_match (predicted_shares lit ncls (o_alias o) c idx (o_calls o)) (o_x_shares o)
           then 0%nat else 1%nat
       | Err _ => 1%nat
       end
   | _ =>
-      if negb (err_allowed c ds toks outcome) then 2%nat else
+      if negb (err_allowed c ds toks outcome) || o_store_changed o then 2%nat else
       match m with
       | Err e => if (err_code e =? outcome)%nat then 0%nat else 1%nat
       | Ok _ => 1%nat
